@@ -1,11 +1,11 @@
 import sys
-sys.path.insert(0, '/root/scratch/proto')
+
 from absint import *
 from framedom import *
 import os
 ROOT = os.environ.get('DIMROOT', '/repo')
 def run(modname, fn, params, post=None):
-    repo = Repo(ROOT); dom = FrameDomain(); it = Interp(repo, dom); it.tolerant = True
+    repo = ARepo(ROOT); dom = FrameDomain(); it = Interp(repo, dom); it.tolerant = True
     mod = repo.module(modname)
     node = mod.funcs.get(fn)
     if node is None:   # method: search classes
@@ -25,7 +25,7 @@ class FF(V):
 # getBH_level1: declared boundary types
 class FieldFunc(FuncRef):
     pass
-repo = Repo(ROOT)
+repo = ARepo(ROOT)
 # emulate field_func contract through a tiny synthetic function
 import tempfile, textwrap
 out, dom, it = run('magpylib._src.fields.field_wrap_BH', 'getBH_level1',
